@@ -685,8 +685,8 @@ func c06run(tmp string, idx int, h c06hist, kind string) c06result {
 		var s string
 		switch o.K {
 		case c06Create:
-			// leading removals in the complete area = evictions, grouped per key in order
-			var ev []string
+			// leading removals in the complete area = iterations of ensureFreeSpace's eviction loop; each is
+			// its own model step (Evict y sz order), completed successfully by construction
 			j := 0
 			for j < len(nc) && nc[j].area == "AComp" && (nc[j].kind == "Unlink" || nc[j].kind == "RmBlob") {
 				k := nc[j].key
@@ -698,10 +698,11 @@ func c06run(tmp string, idx int, h c06hist, kind string) c06result {
 				if j < len(nc) && nc[j].area == "AComp" && nc[j].key == k && nc[j].kind == "RmBlob" {
 					j++
 				}
-				ev = append(ev, verifhlib.Pair(strconv.Itoa(k), verifhlib.List(fn)))
-				hist = append(hist, "evict")
+				sops = append(sops, fmt.Sprintf("Evict %d %d %s", k, o.Size, verifhlib.List(fn)))
+				souts = append(souts, "OOk")
+				hist = append(hist, "Evict")
 			}
-			s = fmt.Sprintf("Create %d %d %s", o.Key, o.Size, verifhlib.List(ev))
+			s = fmt.Sprintf("Create %d %d", o.Key, o.Size)
 		case c06WriteAt:
 			s = fmt.Sprintf("WriteAt %d %d %s", o.Key, o.Off, verifhlib.Bytes(o.Data))
 		case c06MarkComplete:
@@ -786,7 +787,9 @@ func c06driver(ctx *verifhlib.Ctx) {
 		kind string
 	}
 	var jobs []job
-	add := func(cfg c06cfg, kind string, ops ...c06op) { jobs = append(jobs, job{c06hist{Cfg: cfg, Ops: ops}, kind}) }
+	add := func(cfg c06cfg, kind string, ops ...c06op) {
+		jobs = append(jobs, job{c06hist{Cfg: cfg, Ops: ops}, kind})
+	}
 	cr := func(k int, sz uint64) c06op { return c06op{K: c06Create, Key: k, Size: sz} }
 	wr := func(k int, off int64, d string) c06op { return c06op{K: c06WriteAt, Key: k, Off: off, Data: []byte(d)} }
 	mc := func(k int) c06op { return c06op{K: c06MarkComplete, Key: k} }
